@@ -136,6 +136,20 @@ func H_C09_old_to_new() {
 	zzCommonEq(o, n, "new.Read(old.Write(w))")
 	zzrt.Assert(n.Added == nil && n.Extra == nil && n.Mm == nil && n.Dd == 1.5 && n.Oin == nil, "added fields take their defaults")
 	zzrt.Assert(n.Inn.B == nil && n.Inn.C == nil, "added nested fields take their defaults")
+	// added fields WITH a declared default, at every place a struct of the older data can sit:
+	// a plain field, a list element, a map value
+	dflt := func(in *nw.Inner, where string) {
+		zzrt.Assert(in != nil, where)
+		zzrt.Assert(!in.IsSetTag() && in.GetTag() == "none", where+": an added optional field with a default is unset and its getter gives the default")
+	}
+	dflt(n.Inn, "struct field")
+	for _, e := range n.Li {
+		dflt(e, "list element")
+	}
+	for _, e := range n.M {
+		dflt(e, "map value")
+	}
+	zzrt.Assert(len(n.Li) == 1 && len(n.M) == 1, "containers of the older data")
 	zzrt.Cover("end")
 }
 
